@@ -5,7 +5,7 @@
 #include "text_contracts.h"
 void h_filter(void) {
   const char *s; char *f;
-  { const char *nd; int n; g_in = nd; g_len = n; }
+  { const char *nd; int n; int b; g_in = nd; g_len = n; g_bad = b; }
   int r = filter_assembly_str_fsa(s, f);
   REACH("filter returns");
 }
